@@ -16,13 +16,25 @@
 // "k Next calls; Seek(t1); [j Next calls; Seek(t2);] drain" for all k, all targets t drawn from {0, e-1, e, e+1 for the
 // elements e (all of them for short lists, those around block boundaries / ends for long lists), max+1}, executed in
 // lock step on the decoded postings and on index.NewListPostings(original).
+//
+// The cached value is one byte slice that the cache hands to every hit, so a list is not decoded once but many times
+// from the SAME bytes. That history is part of the space: every script above is one more decode of the same value, and
+// in addition every list x codec is decoded from the value placed in memory in three ways (the slice the encoder
+// returned; a copy with cap == len, what a cache that copies on store hands out; a sub-slice of a larger buffer with
+// guard bytes on both sides, cap > len, what a slab/arena hands out) with the history "drain; drain again; drain through
+// the other entry point; read k elements and close; Seek(last) and drain; drain". After every single decode the value
+// (and the guard bytes) must be byte-identical to what the encoder produced: otherwise the next hit, or a concurrent
+// one, does not decode the encoding. A panic of the code under test is recovered per decode and reported as a violation.
 package c12
 
 import (
 	"bytes"
 	"fmt"
 	"iter"
+	"runtime/debug"
 	"sort"
+	"strings"
+	"syscall"
 	"testing"
 	"time"
 
@@ -56,6 +68,9 @@ const block = 65536 - 8
 
 var widths = []int{1, 2, 3, 5, 7}
 
+// farTail varints (>= 4KiB, < half a block for the widest gap) after a block boundary.
+const farTail = 4096
+
 func lowOfWidth(w int) uint64 {
 	if w == 1 {
 		return 1
@@ -64,7 +79,8 @@ func lowOfWidth(w int) uint64 {
 }
 
 // buildLong returns the list and the element indexes whose varint contains (or starts at) a block boundary.
-func buildLong(c Case) (list []storage.SeriesRef, boundaryIdx []int, straddles int) {
+// cut[i] tells whether the i-th block boundary falls inside a varint (then the decoder carries a remainder over).
+func buildLong(c Case) (list []storage.SeriesRef, boundaryIdx []int, cut []bool, straddles int) {
 	list = make([]storage.SeriesRef, 0, c.P+c.M)
 	var cur, off uint64
 	lcg := uint64(0x9E3779B97F4A7C15)
@@ -73,6 +89,7 @@ func buildLong(c Case) (list []storage.SeriesRef, boundaryIdx []int, straddles i
 	emit := func(g uint64, w int) {
 		if off <= nextB && nextB < off+uint64(w) { // this varint starts at or is cut by the block boundary
 			boundaryIdx = append(boundaryIdx, len(list))
+			cut = append(cut, off < nextB)
 			if off < nextB {
 				straddles++
 			}
@@ -102,7 +119,7 @@ func buildLong(c Case) (list []storage.SeriesRef, boundaryIdx []int, straddles i
 		}
 		emit(g, c.W)
 	}
-	return list, boundaryIdx, straddles
+	return list, boundaryIdx, cut, straddles
 }
 
 func buildShort(c Case) ([]storage.SeriesRef, bool) {
@@ -141,7 +158,10 @@ func gen(r *vlib.R) iter.Seq[Case] {
 			for p := 0; p < w; p++ {
 				for j := 1; j <= maxBlocks; j++ {
 					base := (block*j - p) / w
-					for d := -1; d <= 2; d++ {
+					// the list ends one varint before / at / one / two varints after the boundary (the last block is then a few
+					// bytes, which the stream writer always stores uncompressed), or farTail varints after it (a last block that
+					// is compressed when its content is compressible: an uncompressed chunk followed by a compressed one needs it)
+					for _, d := range []int{-1, 0, 1, 2, farTail} {
 						if !r.Thorough() && j == 2 && d != 1 {
 							continue // quick: two boundaries only with the list ending one varint after the second one
 						}
@@ -161,25 +181,111 @@ func gen(r *vlib.R) iter.Seq[Case] {
 	}
 }
 
-// dataChunks parses the snappy framing of a "dss" value and counts compressed / uncompressed data chunks.
-func dataChunks(b []byte) (comp, uncomp int) {
+// dataChunks parses the snappy framing of a "dss" value and counts compressed / uncompressed data chunks;
+// seq has one letter per data chunk in stream order: 'c' compressed, 'u' uncompressed (stored verbatim).
+func dataChunks(b []byte) (comp, uncomp int, seq string) {
 	b = b[3:]
 	for len(b) >= 4 {
 		typ := b[0]
 		n := int(b[1]) | int(b[2])<<8 | int(b[3])<<16
 		b = b[4:]
 		if n > len(b) {
-			return -1, -1
+			return -1, -1, ""
 		}
 		switch typ {
 		case 0x00:
 			comp++
+			seq += "c"
 		case 0x01:
 			uncomp++
+			seq += "u"
 		}
 		b = b[n:]
 	}
 	return
+}
+
+// placed is one way the cached value lies in memory when it is handed to the decoders.
+type placed struct {
+	name  string
+	val   []byte // what the decoder gets
+	whole []byte // val with the memory around it that belongs to the same allocation and is checked too
+	orig  []byte // copy of whole taken before the first decode
+	off   int    // offset of val in whole
+	n     int    // decodes of val so far
+}
+
+const (
+	placeEncoder = iota // the very slice the encoder returned (cap as the encoder left it)
+	placeExact          // a copy with cap == len
+	placeGuarded        // a sub-slice of a larger buffer: guard bytes before, and after within cap(val)
+	guardByte    = 0xA5
+	guardLead    = 64
+)
+
+var placeName = []string{"slice returned by the encoder", "copy with cap==len", "sub-slice of a larger buffer (guard bytes around it, cap>len)"}
+
+// place lays the encoded value out in memory. trail is the number of guard bytes after the value for placeGuarded; it
+// is chosen larger than one decoded chunk so that an append onto any sub-slice of the value never has to reallocate.
+func place(enc []byte, kind, trail int) *placed {
+	pl := &placed{name: placeName[kind]}
+	switch kind {
+	case placeEncoder:
+		pl.val, pl.whole = enc, enc
+	case placeExact:
+		b := make([]byte, len(enc))
+		copy(b, enc)
+		pl.val, pl.whole = b[:len(b):len(b)], b
+	case placeGuarded:
+		w := make([]byte, guardLead+len(enc)+trail)
+		for i := range w {
+			w[i] = guardByte
+		}
+		copy(w[guardLead:], enc)
+		pl.val, pl.whole, pl.off = w[guardLead:guardLead+len(enc)], w, guardLead
+	}
+	pl.orig = append([]byte(nil), pl.whole...)
+	return pl
+}
+
+// damage describes the first byte of the value / of the memory around it that differs from before the decodes ("" = intact).
+func (pl *placed) damage() (inValue bool, desc string) {
+	if bytes.Equal(pl.whole, pl.orig) {
+		return false, ""
+	}
+	n := 0
+	first := -1
+	for i := range pl.whole {
+		if pl.whole[i] != pl.orig[i] {
+			if first < 0 {
+				first = i
+			}
+			n++
+		}
+	}
+	rel := first - pl.off
+	if rel >= 0 && rel < len(pl.val) {
+		return true, fmt.Sprintf("%d bytes changed, first at offset %d of the %d-byte encoded value (0x%02x -> 0x%02x)", n, rel, len(pl.val), pl.orig[first], pl.whole[first])
+	}
+	return false, fmt.Sprintf("%d bytes changed outside the value, first at offset %d relative to its start (value is %d bytes long)", n, rel, len(pl.val))
+}
+
+// guarded runs f, which calls the code under test, and turns a panic into a description.
+func guarded(f func()) (panicked string) {
+	defer func() {
+		if p := recover(); p != nil {
+			where := ""
+			for _, l := range strings.Split(string(debug.Stack()), "\n") {
+				if strings.Contains(l, "/pkg/store/") && !strings.Contains(l, "zz_verif_") {
+					where = " at " + strings.TrimSpace(strings.SplitN(l, " +0x", 2)[0])
+					break
+				}
+			}
+			panicked = fmt.Sprintf("panic: %v%s", p, where)
+		}
+	}()
+	f()
+	return ""
 }
 
 func targetsFor(list []storage.SeriesRef, idx []int) []uint64 {
@@ -211,14 +317,21 @@ func targetsFor(list []storage.SeriesRef, idx []int) []uint64 {
 }
 
 type script struct {
-	k      int
-	t1     uint64
-	second bool
-	j      int
-	t2     uint64
+	k       int
+	t1      uint64
+	second  bool
+	j       int
+	t2      uint64
+	abandon bool // only the k Next calls, then the iterator is closed without being drained
 }
 
 func (s script) String() string {
+	if s.abandon {
+		return fmt.Sprintf("%d*Next; close", s.k)
+	}
+	if s.k < 0 {
+		return "drain"
+	}
 	if s.second {
 		return fmt.Sprintf("%d*Next; Seek(%d); %d*Next; Seek(%d); drain", s.k, s.t1, s.j, s.t2)
 	}
@@ -249,6 +362,9 @@ func lockstep(got, ref index.Postings, s script) string {
 			return d
 		}
 	}
+	if s.abandon {
+		return ""
+	}
 	if s.k >= 0 {
 		if d, cont := step("Seek", s.t1, got.Seek(storage.SeriesRef(s.t1)), ref.Seek(storage.SeriesRef(s.t1))); !cont {
 			return d
@@ -275,17 +391,22 @@ func TestCheck(t *testing.T) {
 	r := vlib.New(t, "C12")
 	defer r.Finish()
 	r.Rule("lists x codec {dvs, dss via streamed encode, dss via snappyStreamedEncode of diff-varint bytes}; short = all gap sequences up to the length bound over " +
-		"{0,1,127,128,16383,16384,2^21,2^32,2^56,2^62}; long = P 1-byte gaps + M W-byte gaps, W in {1,2,3,5,7}, P in 0..W-1, M = -1..+2 around each 65528-byte block " +
+		"{0,1,127,128,16383,16384,2^21,2^32,2^56,2^62}; long = P 1-byte gaps + M W-byte gaps, W in {1,2,3,5,7}, P in 0..W-1, M = -1..+2 and +4096 around each 65528-byte block " +
 		"boundary, every compressible/incompressible assignment per block; non-trivial = distinct list with >= 2 elements and a multi-byte varint (short) or with a varint " +
-		"cut by a block boundary (long); extra counters give scripts executed and chunk types seen")
-	r.Assume("Only legitimate iterator use is compared: after Next or Seek returned false nothing more is asked of either iterator (index.Postings leaves that undefined; " +
+		"cut by a block boundary (long); extra counters give scripts executed and chunk types seen. Every script is one more decode of the same cached bytes; " +
+		"each list x codec is also decoded 6 times in a row (drain, drain, drain via the codec's own decoder, k Next + close, Seek(last) + drain, drain) from a cap==len copy " +
+		"and from a sub-slice of a larger buffer with guard bytes; after every decode the value and the guard bytes must be unchanged; panics of the codecs are recovered per decode")
+	r.Assume("Only legitimate iterator use is compared: after Next or Seek returned false nothing more is asked of either iterator (index.Postings leaves that undefined; "+
 		"listPostings and the diff-varint iterators legitimately differ there).",
+		"A decode that writes into the encoded value (or into memory around it that it was not given) is reported even when the decodes that were executed after it still "+
+			"returned the right list: the index cache hands the same byte slice to every hit, concurrent ones included, so the bytes other decodes see are no longer the encoding.",
 		"Series references are uint64 values whose running sum does not overflow; equal consecutive references (gap 0) are included because the encoders accept them.")
 
 	vlib.ForEach(r, gen(r), func(c Case) {
 		var (
 			list      []storage.SeriesRef
 			bIdx      []int
+			cut       []bool
 			straddles int
 		)
 		if c.Fam == "short" {
@@ -294,17 +415,29 @@ func TestCheck(t *testing.T) {
 				return
 			}
 		} else {
-			list, bIdx, straddles = buildLong(c)
+			list, bIdx, cut, straddles = buildLong(c)
 		}
 		name := codecName[c.Codec]
 		t0 := time.Now()
-		defer func() { r.Add("cpu_us_"+c.Fam, time.Since(t0).Microseconds()) }() // cost accounting only
+		var nScripts, nAgain int64 // added to the shared counters once per case (the reporter's lock is contended)
+		defer func() {
+			r.Add("cpu_us_"+c.Fam, time.Since(t0).Microseconds()) // cost accounting only
+			r.Add("scripts", nScripts)
+			r.Add("decodes_of_already_decoded_bytes", nAgain)
+		}()
 		r.Sample(c)
 		hint := len(list)
 		if c.Hint == 1 {
 			hint = 0
 		}
-		enc, err := store.VerifC12Encode(c.Codec, index.NewListPostings(list), hint)
+		var (
+			enc []byte
+			err error
+		)
+		if pan := guarded(func() { enc, err = store.VerifC12Encode(c.Codec, index.NewListPostings(list), hint) }); pan != "" {
+			r.Violation(name+":encode-panics", fmt.Sprintf("encoding a sorted list of %d refs: %s", len(list), pan), c)
+			return
+		}
 		if err != nil {
 			r.Violation(name+":encode-error", fmt.Sprintf("encoding a sorted list failed: %v", err), c)
 			return
@@ -321,7 +454,7 @@ func TestCheck(t *testing.T) {
 			}
 		} else {
 			if c.Codec != 0 {
-				comp, uncomp := dataChunks(enc)
+				comp, uncomp, seq := dataChunks(enc)
 				want := (c.P + c.W*c.M + block - 1) / block
 				if comp+uncomp != want {
 					t.Errorf("HARNESS-ERROR: expected %d data chunks for %+v, framing has %d+%d (the block size assumption is wrong)", want, c, comp, uncomp)
@@ -332,6 +465,18 @@ func TestCheck(t *testing.T) {
 				if comp > 0 && uncomp > 0 {
 					r.Add("lists_with_both_chunk_types", 1)
 				}
+				if strings.Contains(seq, "uc") {
+					r.Add("lists_with_uncompressed_chunk_followed_by_compressed", 1)
+				}
+				if strings.Contains(seq, "ucc") || strings.Contains(seq, "ucu") {
+					r.Add("lists_with_uncompressed_then_compressed_then_more_chunks", 1)
+				}
+				// which of the four (chunk type before, chunk type after) hand-overs of a cut varint are exercised
+				for i, isCut := range cut {
+					if isCut && i+1 < len(seq) {
+						r.Add("cut_varint_carried_"+seq[i:i+1]+"_to_"+seq[i+1:i+2], 1)
+					}
+				}
 			}
 			if straddles > 0 {
 				r.Nontrivial(fmt.Sprint("l", c.W, c.P, c.M, c.Pats))
@@ -339,32 +484,71 @@ func TestCheck(t *testing.T) {
 			}
 		}
 
-		run := func(mode int, s script) bool {
-			p, cl, err := store.VerifC12Decode(enc, mode)
-			if err != nil {
-				r.Violation(name+":decode-error", fmt.Sprintf("decode (mode %d) failed: %v", mode, err), c)
-				return false
+		// run decodes pl.val once more (every call is one more "cache hit" on the same bytes), executes the script in lock step
+		// with the original list, and then requires the value and the memory around it to be untouched.
+		run := func(pl *placed, mode int, s script) bool {
+			pl.n++
+			ctx := func() string {
+				return fmt.Sprintf("list of %d refs, value = %s, decode #%d of the same bytes (entry point %d), script [%s]", len(list), pl.name, pl.n, mode, s)
 			}
-			d := lockstep(p, index.NewListPostings(list), s)
-			cl()
-			r.Add("scripts", 1)
-			if d != "" {
+			var (
+				derr error
+				d    string
+			)
+			pan := guarded(func() {
+				p, cl, err := store.VerifC12Decode(pl.val, mode)
+				if err != nil {
+					derr = err
+					return
+				}
+				d = lockstep(p, index.NewListPostings(list), s)
+				cl()
+			})
+			nScripts++
+			if pl.n > 1 {
+				nAgain++
+			}
+			ok := true
+			// the bytes first: when a decode damaged them, that is the cause of whatever else is observed afterwards
+			if inValue, dmg := pl.damage(); dmg != "" {
+				sig := name + ":decode-writes-outside-the-encoded-bytes"
+				if inValue {
+					sig = name + ":encoded-bytes-modified-by-decode"
+				}
+				r.Violation(sig, ctx()+": after this decode "+dmg, c)
+				ok = false
+			}
+			switch {
+			case pan != "":
+				r.Violation(name+":decode-panics", ctx()+": "+pan, c)
+				ok = false
+			case derr != nil:
+				r.Violation(name+":decode-error", ctx()+": decode failed: "+derr.Error(), c)
+				ok = false
+			case d != "":
 				sig := name + ":seek-differs"
-				if s.k < 0 {
+				if s.k < 0 || s.abandon {
 					sig = name + ":roundtrip-differs"
 				}
-				r.Violation(sig, fmt.Sprintf("list of %d refs, decode mode %d, script [%s]: %s", len(list), mode, s, d), c)
-				return false
+				r.Violation(sig, ctx()+": "+d, c)
+				ok = false
 			}
-			return true
+			return ok
 		}
+		drain := script{k: -1}
+		own := place(enc, placeEncoder, 0)
 
 		if c.Hint == 1 {
 			// the length hint only sizes buffers; when it does not change the encoded bytes the scripts of the hint-0 case apply
-			enc0, err0 := store.VerifC12Encode(c.Codec, index.NewListPostings(list), len(list))
-			if err0 == nil && bytes.Equal(enc0, enc) {
+			// (the capacity of the returned slice does depend on it: that dimension is covered by the placements below)
+			var (
+				enc0 []byte
+				err0 error
+			)
+			pan := guarded(func() { enc0, err0 = store.VerifC12Encode(c.Codec, index.NewListPostings(list), len(list)) })
+			if pan == "" && err0 == nil && bytes.Equal(enc0, enc) {
 				r.Add("hint0_cases_with_identical_bytes", 1)
-				run(0, script{k: -1})
+				run(own, 0, drain)
 				return
 			}
 			r.Add("hint0_cases_with_different_bytes", 1)
@@ -372,7 +556,7 @@ func TestCheck(t *testing.T) {
 
 		// full round trip through both decode entry points
 		for mode := 0; mode < 2; mode++ {
-			if !run(mode, script{k: -1}) {
+			if !run(own, mode, drain) {
 				return
 			}
 		}
@@ -405,7 +589,7 @@ func TestCheck(t *testing.T) {
 					return
 				}
 				for _, t1 := range targets {
-					if !run(mode, script{k: k, t1: t1}) {
+					if !run(own, mode, script{k: k, t1: t1}) {
 						return
 					}
 					if !c.Seek2 {
@@ -413,7 +597,7 @@ func TestCheck(t *testing.T) {
 					}
 					for j := 0; j <= 1; j++ {
 						for _, t2 := range targets {
-							if !run(mode, script{k: k, t1: t1, second: true, j: j, t2: t2}) {
+							if !run(own, mode, script{k: k, t1: t1, second: true, j: j, t2: t2}) {
 								return
 							}
 						}
@@ -421,5 +605,40 @@ func TestCheck(t *testing.T) {
 				}
 			}
 		}
-	})
+
+		// The same value at other places in memory, each decoded repeatedly: a decoder may only read it. With cap == len
+		// an append onto a sub-slice of the value reallocates unless it is followed by more of the value; with spare
+		// capacity behind the value (guard bytes, more than one decoded chunk of them) it never does.
+		trail := 256
+		if c.Fam == "long" {
+			trail = 2 * 65536
+		}
+		kAbandon := len(list) / 2 // read up to the middle, then drop the iterator
+		if len(bIdx) > 0 && bIdx[0]+1 <= len(list) {
+			kAbandon = bIdx[0] + 1 // just past the first block boundary
+		}
+		var last uint64
+		if len(list) > 0 {
+			last = uint64(list[len(list)-1])
+		}
+		for _, kind := range []int{placeExact, placeGuarded} {
+			pl := place(enc, kind, trail)
+			r.Add("placements", 1)
+			history := []struct {
+				mode int
+				s    script
+			}{
+				{0, drain}, {0, drain}, {1, drain}, {0, script{k: kAbandon, abandon: true}}, {0, script{k: 0, t1: last}}, {0, drain},
+			}
+			for _, h := range history {
+				if !run(pl, h.mode, h.s) {
+					return
+				}
+			}
+		}
+	}) // cost accounting only (load independent, unlike the wall time)
+	var ru syscall.Rusage
+	if syscall.Getrusage(syscall.RUSAGE_SELF, &ru) == nil {
+		r.Set("process_cpu_s", float64(ru.Utime.Sec+ru.Stime.Sec)+float64(ru.Utime.Usec+ru.Stime.Usec)/1e6)
+	}
 }
